@@ -39,7 +39,6 @@ for g in groups:
         m = json.load(open(os.path.join(V, 'seeded', s, 'meta.json')))
         meta[s] = m
         for c in m['caught_by']:
-            props.add(c.split(':')[0].split('/')[0].strip())
             for x in re.findall(r'C\d\d', c.split(':')[0]):
                 props.add(x)
         git('apply', os.path.join(V, 'seeded', s, 'patch.diff'))
